@@ -584,7 +584,7 @@ Proof.
   assert (G2 : forall x y e x' y', In (y, e) (adj x) -> In (y', e) (adj x') -> (x = x' /\ y = y') \/ (x = y' /\ y = x')).
   { intros x y e x' y' H1 H2. pose proof (Hadj _ _ _ H1) as J1. pose proof (Hadj _ _ _ H2) as J2.
     unfold as_joined in J1, J2. destruct (nth_error ep e) as [[[u |] [v |]] |]; try discriminate. lia. }
-  destruct (as_path_budget adj h a b (length ep) Hh (Hcons b) (fun n => Hhg n b) (not_eq_sym Hab) G1 G2 (Hconn a b Ha Hb)
+  destruct (as_path_budget adj h a b (length ep) true Hh (Hcons b) (fun n => Hhg n b) (not_eq_sym Hab) G1 G2 (Hconn a b Ha Hb)
               (length ep) (le_n _)) as (ns & es & mg & Hrun & _).
   unfold as_oracle. rewrite Hrun.
   apply (as_path_meets_contract adj h ep a b true (length ep) ns es mg Hh); [| exact Hrun].
